@@ -336,6 +336,9 @@ func (c *checker) nemesis(e *sim.Ev) {
 		c.tailProbe = e.Seq
 	case "m.tail.end":
 		c.tailEnd = e.Seq
+		c.pairwiseLogMatching(e.Seq, "after the quiet tail")
+	case "m.heal", "m.restartall":
+		c.pairwiseLogMatching(e.Seq, "at "+e.K[2:])
 	}
 	c.ext.nemesis(c, e)
 }
